@@ -6,7 +6,7 @@ LEVEL = "proof"
 
 
 def components():
-    return [comps_valid.ValidModel(), comps_valid.IdrefModel()]
+    return [comps_valid.ValidModel(), comps_valid.IdrefModel(), comps_valid.ConfigModel()]
 
 
 def oracles_():
@@ -33,6 +33,12 @@ ASSUMPTIONS = [
     "among themselves and lie in one case per choice, new data do not sit in another case than old data, no LYD_DEFAULT "
     "flag), no empty non-presence container, and rfc_types / rfc_keys of the content as hypotheses (lyd_validate_module does "
     "not re-check values and keys)",
+    "C02_config_validate_iff_rfc_partial / C02_config_error_sound / C02_config_error_class: vschema_ok (cfg_view vs) (the schema "
+    "stays well formed when config false nodes lose their constraints and defaults, e.g. no unique of a config true list "
+    "over config false leaves with defaults; evaluated on every case of component configmodel) and fresh vs f; the spec "
+    "rfc_valid_config and the model share cfg_view, which keeps the schema tree: both are the intended reading only for "
+    "cfg_ready schemas (no mandatory choice below a config false node; not a hypothesis of the proof, cases outside are "
+    "dropped by configmodel)",
     "C02_identityref_all_bases: IdAcyclic (no identity is transitively its own base; the compiler rejects that). "
     "C02_multi_error_first / _verdict and C02_verdict_perm_invariant have no hypothesis",
     "all theorems: the modelled rule set only (no when / must / leafref / instance-identifier, one module); type restrictions "
@@ -53,7 +59,11 @@ MANIFEST = {
             "cases, duplicates only for nodes flagged LYD_NEW), the DFS of lyd_validate_subtree, lyd_validate_final_r / "
             "lyd_validate_siblings_schema_r (choices first, first case with data), lyd_validate_mandatory / _minmax / _unique "
             "with lyd_val_uniq_dflt_in_use, implicit non-presence containers (visited, not materialised), the parser's type / "
-            "key checks as a pre-pass, the same code in multi-error mode (impl_validate_multi), identityref_check_base. "
+            "key checks as a pre-pass, the same code in multi-error mode (impl_validate_multi), identityref_check_base, and the "
+            "run with LYD_VALIDATE_NO_STATE (impl_parse_validate_config: the per-node 'state' check of lyd_validate_final_r at "
+            "every level before the schema checks of that level; the `continue` on LYS_CONFIG_R schema nodes in "
+            "lyd_validate_siblings_schema_r and lyd_new_implicit = running on RfcValid.cfg_view vs, the schema in which "
+            "config false nodes carry no mandatory / min / max / unique constraint and no default). "
             "Theorems (hypotheses: ASSUMPTIONS): C02_validate_iff_rfc_partial (vschema_ok, fresh tree: impl_parse_validate = Ok "
             "<-> rfc_valid); C02_error_sound / C02_error_class (fresh: an error of class e only if rule class e is violated; "
             "exactly one class violated -> that class, reported as LY_EVALID / LYVE_DATA / app-tag of C02_apptags); "
@@ -64,7 +74,13 @@ MANIFEST = {
             "depend on LYD_VALIDATE_MULTI_ERROR; C02_multi_error_example); C02_identityref_all_bases (idref_check accepts exactly "
             "the identities derived transitively from ALL bases, for acyclic base statements; C02_identityref_example); "
             "C02_verdict_perm_invariant (rfc_valid is invariant under permutation of siblings at every level, all trees) and "
-            "C02_impl_verdict_perm_invariant (so is impl_parse_validate = Ok on fresh trees); C02_validate_iff_rfc_refuted (the "
+            "C02_impl_verdict_perm_invariant (so is impl_parse_validate = Ok on fresh trees); C02_config_validate_iff_rfc_partial "
+            "(vschema_ok (cfg_view vs), fresh tree: impl_parse_validate_config = Ok <-> rfc_valid_config = no config false node "
+            "in the tree (rfc_nostate) and rfc_valid for cfg_view vs), C02_config_error_sound / C02_config_error_class (an error "
+            "of class e only if class e is violated, EState = some node is config false; exactly one class violated -> that "
+            "class), C02_config_view (cfg_view keeps kinds, keys, config flags and the schema tree, changes info by neut only), "
+            "C02_config_example (a mandatory config false leaf: the configuration alone is accepted with the option and "
+            "rejected without it, configuration + state the other way round); C02_validate_iff_rfc_refuted (the "
             "iff for ARBITRARY flags, Definition C02_validate_iff_rfc, is false in the model: an un-flagged duplicate is accepted - validation is incremental; "
             "since 06232b2 the public insert functions set the flag); C02_regressions (model facts: the witnesses of the fixed "
             "findings unique-default-not-in-use and stale-nested-default-case now get the RFC verdict); C02_example (the "
@@ -78,7 +94,11 @@ MANIFEST = {
             "rules with an independent Python reading of the RFC; vschema_ok / fresh / hist_ok are evaluated and the two iff "
             "theorems re-checked on every case; every fresh tree is validated again with LYD_VALIDATE_MULTI_ERROR (libyang "
             "reports the last logged error = last element of impl_validate_multi). Component idrefmodel: random acyclic identity "
-            "hierarchies over two modules, identityref with 1-3 bases, libyang's acceptance = idref_check. ORACLE validmut "
+            "hierarchies over two modules, identityref with 1-3 bases, libyang's acceptance = idref_check. Component configmodel: "
+            "lyd_validate_module with LYD_VALIDATE_NO_STATE on LYD_PARSE_ONLY trees of modules with config false nodes (valid "
+            "instance with its state data, its configuration part, the configuration part after 1-3 mutations) = extracted "
+            "impl_parse_validate_config (verdict and error class incl. 'state'), and C02_config_validate_iff_rfc_partial "
+            "re-checked on every case (hypotheses and cfg_ready evaluated by the model, cases outside dropped). ORACLE validmut "
             "(expectation by construction / Python reading, no model): valid instance + one mutation per rule class, the same "
             "families, fixed documents for must, when on nodes / choices / cases, leafref, instance-identifier, if-feature, and "
             "type restrictions of every built-in type, through XML, JSON, LYB, shuffled siblings, parse+validate, parse-only + "
@@ -87,13 +107,16 @@ MANIFEST = {
             "every route gives the verdict (and class where one error is expected); leaf-list values with colliding node hashes; "
             "the witnesses of the fixed findings as regression cases.",
     "note": "PARTIAL. (a) RULES: when, must, leafref and instance-identifier require-instance and the type restrictions (parameter "
-            "type_ok; only identityref is modelled) are not in the Coq models - oracle level only, incl. if-feature and state "
-            "placement; input/output placement (RPC / action) is covered by nothing. (b) TREES: the iff theorems need hist_ok "
+            "type_ok; only identityref is modelled) are not in the Coq models - oracle level only, incl. if-feature; state "
+            "placement is modelled for LYD_VALIDATE_NO_STATE only (LYD_PARSE_NO_STATE: oracle only); input/output placement "
+            "(RPC / action) is covered by nothing. (b) TREES: the iff theorems need hist_ok "
             "(fresh trees = everything flagged are the special case); outside are the auto-deletions (defaults, old case replaced "
             "by a new one: validation edits the tree, the verdict is about the result - transcribed in ValidateImpl and tied by "
             "the correspondence run, no theorem), un-flagged duplicates (refuted theorem; reachable only by manipulating flags "
             "or links directly) and explicit empty non-presence containers (finding empty-np-container-dupcase). (c) OPTIONS: "
-            "LYD_VALIDATE_MULTI_ERROR is modelled; NO_STATE (oracle only), OPERATIONAL, NO_DEFAULTS, NOT_FINAL, the validation "
+            "LYD_VALIDATE_MULTI_ERROR and LYD_VALIDATE_NO_STATE are modelled, NO_STATE for fresh trees only (no history theorem, "
+            "not combined with MULTI_ERROR, schemas with a mandatory choice below a config false node or an ill-formed "
+            "configuration view excluded); OPERATIONAL, NO_DEFAULTS, NOT_FINAL, the validation "
             "diff, RPC / notification / extension-data validation, several modules (beyond an imported identity module) are not. "
             "(d) implicit default nodes are not materialised (WithDefaults slice): schemas where a leaf-list has both defaults "
             "and min/max-elements are excluded; the children_ht and the linear path of lyd_validate_duplicates are one model "
